@@ -22,6 +22,14 @@ for pid in props:
     if not m:
         continue
     claimed.add(pid)
+    note = m["note"]
+    evp = os.path.join(V, "evidence", pid + ".json")
+    if os.path.exists(evp):
+        tags = json.load(open(evp))["coverage"].get("per_tag", {})
+        if "B" in tags:
+            note = note.rstrip() + (" Obligations tagged B (%d of %d in the quick tier: evaluation-protocol histories against freshly built objects, dtype / device "
+                                    "variants, real-underflow instances, JSON variants, numeric stand-ins) are bounded and never counted as proved; U = unbounded, "
+                                    "V = proved per enumerated shape." % (tags["B"]["obligations"], sum(t["obligations"] for t in tags.values())))
     checks.append({
         "property_id": pid,
         "quick_cmd": "./check %s --tier quick" % pid,
@@ -30,7 +38,7 @@ for pid in props:
         "replay_cmd_template": "./check replay {path}",
         "engine": "vt",
         "level_claimed": {"category": m["category"], "text": m["text"], "design_ref": m.get("design_ref", "DESIGN.md section 4, " + pid)},
-        "level_note": m["note"],
+        "level_note": note,
         "technique": m["technique"],
     })
 not_app = []
